@@ -23,7 +23,7 @@
 (***************************************************************************)
 EXTENDS RenderArgs, TLC, Json
 
-CONSTANTS TreeSel, Part, NParts, Sub, NSub, MaxOps, MaxHeap, MaxNss, DumpEdges
+CONSTANTS TreeSel, Part, NParts, Sub, NSub, MaxOps, MaxHeap, MaxNss, DumpEdges, UvalOps
 
 (* ---- class trees -------------------------------------------------------- *)
 Depth(par, c) == Cardinality(Anc([par |-> par, has |-> {}], c)) - 1
@@ -78,6 +78,10 @@ RaIds == {i \in Ids : obj[i].k = "ra"}
 
 KW == {<<>>} \cup {<<<<f, x>>>> : f \in 1..2, x \in {0, 1}}
         \cup {<<<<1, x>>, <<2, y>>>> : x \in {0, 1}, y \in {0, 1}}
+\* one more assignment gives field f1 the UNHASHABLE value (a list): a legal value.  UvalOps
+\* (subset of {"NsNew", "NsUpdate", "Update"}) = the operations that may be GIVEN it as a
+\* keyword (bound of the tier); every operation meets it through the objects on the heap.
+KWU(name) == IF name \in UvalOps THEN KW \cup {<<<<1, UVal>>>>} ELSE KW
 \* namespace operands: heap namespaces, and namespaces EXTRACTED from a live set (set[cls] /
 \* iteration).  A call takes at most one extracted operand (bounds the branching); the same
 \* operand may be given twice.
@@ -126,30 +130,35 @@ Do(op, accepted) ==
   /\ tr' = tr
   /\ IF e.rej # {}
      THEN /\ UNCHANGED <<obj, dflt>>
-          /\ out' = [op |-> op, id |-> 0, exc |-> e.rej, req |-> e.req]
+          /\ out' = [op |-> op, id |-> 0, exc |-> e.rej, req |-> e.req, hold |-> <<>>]
      ELSE LET r == ResultId(op, e) IN
           /\ obj' = IF r.id = Fresh THEN Append(obj, e.rec) ELSE obj
           /\ dflt' = IF r.sh /\ dflt[e.rec.c + 1] = 0 THEN [dflt EXCEPT ![e.rec.c + 1] = r.id]
                      ELSE dflt
-          /\ out' = [op |-> op, id |-> r.id, exc |-> {}, req |-> e.req]
+          /\ out' = [op |-> op, id |-> r.id, exc |-> {}, req |-> e.req, hold |-> e.hold]
 
 Init ==
   /\ tr \in 1..Len(Trees)
   /\ obj = <<>>
   /\ dflt = [c \in 1..(NCls(Trees[tr]) + 1) |-> 0]
   /\ steps = 0
-  /\ out = [op |-> MkOp("Init", 0, 0, 0, <<>>, <<>>), id |-> 0, exc |-> {}, req |-> NoReq]
+  /\ out = [op |-> MkOp("Init", 0, 0, 0, <<>>, <<>>), id |-> 0, exc |-> {}, req |-> NoReq,
+            hold |-> <<>>]
 
 (* ---- one named action per API operation (accepted / rejected) ------------- *)
 \* b = 1: instantiate a SUBCLASS of the namespace class (inherits fields and association)
 \* (bounded: only for the topmost owner class and two field assignments)
 SubKW == {<<>>, <<<<1, 1>>>>}
-SubOK(c, kw, sb) == sb = 1 => (kw \in SubKW /\ \A k \in T.has : c <= k)
+SubOK(c, kw, sb) ==
+  /\ sb = 1 => (kw \in SubKW /\ \A k \in T.has : c <= k)
+  \* bound: unless "AllClasses" \in UvalOps only the topmost owner class is CONSTRUCTED with the
+  \* unhashable value
+  /\ (kw = <<<<1, UVal>>>> /\ "AllClasses" \notin UvalOps) => \A k \in T.has : c <= k
 NsNew ==
-  \E c \in T.has, kw \in KW, sb \in {0, 1} :
+  \E c \in T.has, kw \in KWU("NsNew"), sb \in {0, 1} :
     SubOK(c, kw, sb) /\ Do(MkOp("NsNew", 0, sb, c, <<>>, kw), TRUE)
 NsNewRejected ==
-  \E c \in T.has, kw \in KW, sb \in {0, 1} :
+  \E c \in T.has, kw \in KWU("NsNew"), sb \in {0, 1} :
     SubOK(c, kw, sb) /\ Do(MkOp("NsNew", 0, sb, c, <<>>, kw), FALSE)
 
 New ==
@@ -158,7 +167,7 @@ NewRejected ==
   \E c \in 0..N, i \in RaIds \cup {0}, nss \in NssOf(0) : Do(MkOp("New", i, 0, c, nss, <<>>), FALSE)
 
 \* (when set[cls] itself fails, two field assignments are enough: the fields play no role)
-KWFor(a, c) == IF GetItem(T, obj[a], c) = "ok" THEN KW ELSE {<<>>, <<<<2, 1>>>>}
+KWFor(a, c) == IF GetItem(T, obj[a], c) = "ok" THEN KWU("Update") ELSE {<<>>, <<<<2, 1>>>>}
 Update == \E a \in RaIds, c \in 0..N : \E kw \in KWFor(a, c) : Do(MkOp("Update", a, 0, c, <<>>, kw), TRUE)
 UpdateRejected ==
   \E a \in RaIds, c \in 0..N : \E kw \in KWFor(a, c) : Do(MkOp("Update", a, 0, c, <<>>, kw), FALSE)
@@ -177,8 +186,8 @@ RorRejected == \E a \in NsOps, b \in Ids : Do(MkOp("Ror", a, b, 0, <<>>, <<>>), 
 
 Pos == \E a \in NsIds : Do(MkOp("Pos", a, 0, 0, <<>>, <<>>), TRUE)
 
-NsUpdate == \E a \in NsIds, kw \in KW : Do(MkOp("NsUpdate", a, 0, 0, <<>>, kw), TRUE)
-NsUpdateRejected == \E a \in NsIds, kw \in KW : Do(MkOp("NsUpdate", a, 0, 0, <<>>, kw), FALSE)
+NsUpdate == \E a \in NsIds, kw \in KWU("NsUpdate") : Do(MkOp("NsUpdate", a, 0, 0, <<>>, kw), TRUE)
+NsUpdateRejected == \E a \in NsIds, kw \in KWU("NsUpdate") : Do(MkOp("NsUpdate", a, 0, 0, <<>>, kw), FALSE)
 
 ToRenderArgs ==
   \E a \in NsIds, c \in (0..N) \cup {0 - 1} : Do(MkOp("ToRenderArgs", a, 0, c, <<>>, <<>>), TRUE)
@@ -237,6 +246,32 @@ OperandsContained ==
            out.op.nss # <<>> => Contains(obj[out.id], At(obj, out.op.nss[Len(out.op.nss)]))
       [] OTHER -> TRUE
 
+\* IDENTITY: a resulting set holds the very namespace OBJECTS it was given.  out.hold[k] is
+\* the token of the object required for class k (heap id, or Ref(set, k) = the object that
+\* live set holds for k, or 0 = a default / an object made by the operation: unconstrained).
+\* Every token names a live object, that object has the value required for k, and the
+\* operand given last for a class is the one held (whatever equal objects exist elsewhere).
+TokLive(i) ==
+  \/ i > 0 /\ i \in NsIds
+  \/ i < 0 /\ RefRa(i) \in RaIds /\ RefK(i) \in AMRO(T, obj[RefRa(i)].c)
+HeldIsGiven ==
+  (out.id # 0 /\ obj[out.id].k = "ra") =>
+    /\ Len(out.hold) = N
+    /\ \A k \in 1..N :
+         out.hold[k] # 0 =>
+           /\ k \in AMRO(T, obj[out.id].c)
+           /\ TokLive(out.hold[k])
+           /\ At(obj, out.hold[k]).c = k
+           /\ At(obj, out.hold[k]).v = obj[out.id].v[k]
+    /\ CASE out.op.op \in {"Pos", "ToRenderArgs", "Ror"} -> out.hold[At(obj, out.op.a).c] = out.op.a
+         [] out.op.op \in {"New", "UpdateNs"} /\ out.op.nss # <<>> ->
+              LET last == out.op.nss[Len(out.op.nss)] IN out.hold[At(obj, last).c] = last
+         [] out.op.op = "Or" /\ obj[out.op.b].k = "ns" -> out.hold[obj[out.op.b].c] = out.op.b
+         [] out.op.op = "Convert" ->
+              \A k \in AMRO(T, obj[out.id].c) \cap AMRO(T, obj[out.op.a].c) :
+                 out.hold[k] = Ref(out.op.a, k)
+         [] OTHER -> TRUE
+
 \* rejection is exactly non-acceptance, with a documented exception class
 RejectionDocumented ==
   out.id = 0 /\ out.op.op # "Init" =>
@@ -276,6 +311,7 @@ HeapKey(o) == [i \in 1..Len(o) |-> <<o[i].k, o[i].c, o[i].v, o[i].s>>]
 OpArr(op) == <<op.op, op.a, op.b, op.cls, op.nss, op.kw>>
 Judge(o) ==
   [eq |-> SetSeq(EqPairs(o)), hd |-> SetSeq(ClassOnlyPairs(o)),
+   he |-> SetSeq(HashEqPairs(o)), uh |-> SetSeq(Unhashables(o)),
    gi |-> [i \in 1..Len(o) |-> GetItems(T, o[i])],
    ct |-> SetSeq({p \in (1..Len(o)) \X (1..Len(o)) :
                     o[p[1]].k = "ra" /\ o[p[2]].k = "ns" /\ Contains(o[p[1]], o[p[2]])})]
@@ -284,7 +320,8 @@ Dump ==
   DumpEdges =>
     PrintT(<<"EDGE", ToJson(<<tr, HeapKey(obj), dflt, steps, OpArr(out'.op), out'.id,
                               SetSeq(out'.exc), dflt',
-                              IF Len(obj') > Len(obj) THEN HeapKey(obj')[Len(obj')] ELSE <<>> >>)>>)
+                              IF Len(obj') > Len(obj) THEN HeapKey(obj')[Len(obj')] ELSE <<>>,
+                              out'.hold>>)>>)
 
 StateDump ==
   DumpEdges => PrintT(<<"STATE", ToJson([t |-> tr, h |-> HeapKey(obj), j |-> Judge(obj)])>>)
